@@ -3321,8 +3321,12 @@ def auto_chunks(chunks, shape, limit, dtype, previous_chunks=None):
     limit = max(1, limit)
     chunksize_tolerance = config.get("array.chunk-size-tolerance")
 
+    # A zero-length dimension makes every block empty; it must not zero the
+    # divisor of the size computations below, so count it as one element.
     largest_block = math.prod(
-        cs if isinstance(cs, Number) else max(cs) for cs in chunks if cs != "auto"
+        (cs if isinstance(cs, Number) else max(cs)) or 1
+        for cs in chunks
+        if cs != "auto"
     )
 
     if previous_chunks:
